@@ -130,3 +130,43 @@ Proof.
     rewrite Ew in *. cbn [app] in *.
     rewrite dec_of_string_exact; [exact (f_equal2 (fun a b => Some (mk false a b)) (f_equal fst R) (f_equal snd R)) | exact Dc | exact Sh | exact (eq_ind_r (fun z => fst z < two96) (Hm : fst (m, s) < two96) R) | exact (eq_ind_r (fun z => snd z <= 28) (Hs : snd (m, s) <= 28) R)].
 Qed.
+
+(* the printed text of a non-negative decimal: a digit, then digits with at most one point *)
+Lemma forallb_firstn {A} (p : A -> bool) : forall n l, forallb p l = true -> forallb p (firstn n l) = true.
+Proof.
+  induction n as [|n IH]; intros l H; [reflexivity|]. destruct l as [|x l]; [reflexivity|].
+  cbn [forallb firstn] in *. apply andb_prop in H as [Hx Hl]. rewrite Hx, (IH l Hl). reflexivity.
+Qed.
+Lemma forallb_skipn {A} (p : A -> bool) : forall n l, forallb p l = true -> forallb p (skipn n l) = true.
+Proof.
+  induction n as [|n IH]; intros l H; [exact H|]. destruct l as [|x l]; [reflexivity|].
+  cbn [forallb skipn] in *. apply andb_prop in H as [_ Hl]. apply IH. exact Hl.
+Qed.
+Lemma digits_are_numchars l : forallb is_digit09 l = true -> forallb (fun x => is_digit09 x || (x =? c_dot)) l = true.
+Proof.
+  induction l as [|x l IH]; [reflexivity|]. cbn [forallb]. intros H. apply andb_prop in H as [Hx Hl]. rewrite Hx, (IH Hl). reflexivity.
+Qed.
+
+Lemma dec_to_string_shape : forall d, dneg d = false -> dmant d < two96 ->
+  exists c w, dec_to_string d = c :: w /\ is_digit09 c = true /\ forallb (fun x => is_digit09 x || (x =? c_dot)) w = true.
+Proof.
+  intros [ng m s] Hn Hm. cbn [dneg dmant dscale] in *. subst ng. unfold dec_to_string. cbn [dneg dmant dscale].
+  assert (Hm40 : m < 10 ^ N.of_nat 40). { assert (two96 < 10 ^ N.of_nat 40) by (vm_compute; reflexivity). lia. }
+  destruct (digits_rev_spec 40 m Hm40) as (_ & D0 & _).
+  destruct (pad_to_spec (N.to_nat s) (digits_rev 40 m) D0) as (_ & D1 & _).
+  set (chars := pad_to (N.to_nat s) (digits_rev 40 m)) in *.
+  pose proof (forallb_firstn is_digit09 (N.to_nat s) chars D1) as Dlo. pose proof (forallb_skipn is_digit09 (N.to_nat s) chars D1) as Dhi.
+  set (lo := firstn (N.to_nat s) chars) in *. set (hi := skipn (N.to_nat s) chars) in *.
+  set (whole' := match rev hi with [] => [48] | _ => rev hi end).
+  assert (Hw : exists c w, whole' = c :: w /\ is_digit09 c = true /\ forallb is_digit09 w = true).
+  { unfold whole'. destruct (rev hi) as [|c w] eqn:E.
+    - exists 48, []. repeat split.
+    - exists c, w. split; [reflexivity|]. rewrite <- (forallb_rev is_digit09) in Dhi. rewrite E in Dhi. cbn [forallb] in Dhi.
+      apply andb_prop in Dhi. exact Dhi. }
+  destruct Hw as (c & w & Ew & Dc & Dw). fold whole'. rewrite Ew.
+  destruct (N.to_nat s).
+  - exists c, w. repeat split; [exact Dc | apply digits_are_numchars; exact Dw].
+  - exists c, (w ++ c_dot :: rev lo). repeat split; [exact Dc|].
+    rewrite forallb_app. apply andb_true_intro. split; [apply digits_are_numchars; exact Dw|].
+    cbn [forallb]. apply andb_true_intro. split; [reflexivity|]. apply digits_are_numchars. rewrite forallb_rev. exact Dlo.
+Qed.
